@@ -57,6 +57,29 @@ def build(methods, ctx, rng):
     return progs
 
 
+def search_family(methods):
+    """Every receiver over {a,b} up to length 5 x every search string over {a,b} up to length 3 (so that occurrences repeat,
+    overlap, touch both ends) through every search-taking method, with positions and replacement templates."""
+    import itertools
+    recv = ["".join(t) for n in range(0, 6) for t in itertools.product("ab", repeat=n)]
+    need = ["".join(t) for n in range(0, 4) for t in itertools.product("ab", repeat=n)]
+    forms = []
+    for m in ("indexOf", "lastIndexOf", "includes", "startsWith", "endsWith"):
+        forms += ["R.%s(S)" % m, "R.%s(S, 1)" % m, "R.%s(S, 2)" % m]
+    forms += ["R.split(S)", "R.split(S, 2)", "R.replace(S, 'X')", 'R.replace(S, "[$&|$`|$\'|$$]")', "R.replaceAll(S, 'X')", "R.replaceAll(S, '')", "R.replaceAll(S, '$&$&')",
+              "R.replaceAll(S, function (m, p) { return '<' + m + p + '>'; })", "R.search(S)", "R.match(S)"]
+    forms = [f for f in forms if f.split("(")[0][2:] in methods]
+    out = []
+    for r in recv:
+        for sub in need:
+            if len(sub) > len(r) + 1:
+                continue
+            for f in forms:
+                c = f.replace("S", json.dumps(sub), 1)
+                out.append(((f.split("(")[0][2:], "search-family", h([r, c])), WRAP % (json.dumps(r), c, json.dumps(r))))
+    return out
+
+
 def rand_progs(methods, rng, n):
     out = []
     alpha = "abcXYZ 019,.-\t"
@@ -90,6 +113,8 @@ def main(ctx):
         live = ep.map({"mod": "checks.C16", "fn": "w_methods"}, [{"candidates": ES_STRING_METHODS}], batch=1, timeout=60)[0]["methods"]
         progs = build(live, ctx, fixed)
         n_grid = len(progs)
+        fam = search_family(live)
+        progs += fam if not ctx.quick else [x for i, x in enumerate(fam) if i % 2 == ctx.seed % 2]
         progs += rand_progs(live, fixed, 3000 if ctx.quick else 60000)
         progs += rand_progs(live, rng, 3000 if ctx.quick else 140000)
         pairs = diff.run_progs(ep, np_, [p[1] for p in progs], per=500)
